@@ -30,6 +30,7 @@ type Contract struct {
 	Props     []string
 	Requires  []*Clause
 	Ensures   []*Clause
+	Assumes   []*Clause // postconditions assumed at call sites, not checked against the body
 	Loops     map[int]*LoopSpec
 	Decreases []*Clause
 	Assigns   []string // array names or "fresh"; nil + !HasAssigns => computed modset
@@ -65,7 +66,7 @@ type Lemma struct {
 	Line   int
 }
 
-var reClause = regexp.MustCompile(`^(requires|ensures|invariant|decreases|assigns|inline|use|props|trust|check|loop|ghost|abstract|bounded|results|pure)\b(\[[^\]]*\])?\s*(\{[^}]*\})?\s*(.*)$`)
+var reClause = regexp.MustCompile(`^(requires|ensures|assumes|invariant|decreases|assigns|inline|use|props|trust|check|loop|ghost|abstract|bounded|results|pure)\b(\[[^\]]*\])?\s*(\{[^}]*\})?\s*(.*)$`)
 
 func (p *Program) parseContracts(path string, overlay []byte) error {
 	var data []byte
@@ -85,7 +86,7 @@ func (p *Program) parseContracts(path string, overlay []byte) error {
 		ln   int
 	}
 	var lines []lline
-	reStart := regexp.MustCompile(`^(func|interface|spec|lemma|axiom|requires|ensures|invariant|decreases|assigns|inline|use|props|trust|check|loop|ghost|abstract|bounded|results|pure)\b`)
+	reStart := regexp.MustCompile(`^(func|interface|spec|lemma|axiom|requires|ensures|assumes|invariant|decreases|assigns|inline|use|props|trust|check|loop|ghost|abstract|bounded|results|pure)\b`)
 	for ln, raw := range rawLines {
 		t := strings.TrimSpace(raw)
 		if !strings.HasPrefix(t, "//@") {
@@ -188,6 +189,9 @@ func (p *Program) parseContracts(path string, overlay []byte) error {
 			last = cl
 		case "ensures":
 			cur.Ensures = append(cur.Ensures, cl)
+			last = cl
+		case "assumes":
+			cur.Assumes = append(cur.Assumes, cl)
 			last = cl
 		case "loop":
 			// "loop N:" optionally followed by a clause on the same line
@@ -297,6 +301,7 @@ func (p *Program) parseContracts(path string, overlay []byte) error {
 		var cls []*Clause
 		cls = append(cls, c.Requires...)
 		cls = append(cls, c.Ensures...)
+		cls = append(cls, c.Assumes...)
 		cls = append(cls, c.Decreases...)
 		cls = append(cls, c.Uses...)
 		for _, l := range c.Loops {
